@@ -64,7 +64,8 @@ CHECKS['C07'] = dict(
          'definitions (partition, sorted union of groups) for every vector up to the length bound over '
          'a gapped id alphabet; every case is replayed on the real functions for int32/int64/uint16/'
          'uint32 with all requested-cluster lists and lookup orders; random vectors up to length 1000 '
-         'are judged by the declarative P-layer in the trace specification.',
+         'are judged by the declarative P-layer in the trace specification, as are get_cluster_spikes / '
+         'get_template_spikes / get_template_counts of real models on curated datasets.',
     design_ref='4 (C07)', technique='TLA+/TLC model checking + exhaustive spec-to-code replay + trace validation',
     note=_NOTE)
 CHECKS['C17'] = dict(
@@ -148,6 +149,18 @@ CHECKS['C09'] = dict(
          'against the definitions (rationals exactly, rescaled waveforms and depths to 1/256).',
     design_ref='4 (C09)', technique='TLA+/TLC model checking + trace validation of recorded summaries',
     note=_NOTE + ' Not a numerical-accuracy check: deviations below 1/256 in fixed-point quantities are invisible.')
+CHECKS['C08'] = dict(
+    text='Curation.tla: a history machine over (spike_templates, spike_clusters) with Merge / Split / '
+         'Reassign (ids may be skipped); TLC proves on every reachable curated state that the '
+         'transcription of get_merge_map yields exactly the provenance sets for EVERY id 0..max, the empty '
+         'ids, and the cluster-count rule. Every distinct reachable state (quick: a seeded sample of ~2.5k, '
+         'thorough: all ~30k) is materialised as a dense dataset (random integer templates, two shanks so '
+         'that channel restriction bites, optional exact whitening) and loaded; merge_map / nan_idx / '
+         'n_clusters are compared with the spec and the cluster waveforms and public cluster means are '
+         'validated by the relational P-layer (dominant template chosen among count ties, count-weighted '
+         'mean of channel-restricted templates as exact rationals). Longer random histories extend depth.',
+    design_ref='4 (C08)', technique='TLA+/TLC model checking of curation histories + state replay + trace validation',
+    note=_NOTE + ' Channel lists of templates are taken from get_template (C05).')
 
 NOT_APPLICABLE = {}
 for e in ENGINES:
